@@ -75,6 +75,18 @@ def maskChange (proj : μ → μ) (c : Change ι μ) : Change ι μ :=
 def pullEvent (p : Option (Pred ι μ)) (proj : μ → μ) (c : Change ι μ) : Option (Change ι μ) :=
   (includeChange p c).map (maskChange proj)
 
+/-- One turn of the forwarding loop of `Collection.Pull` on a published (or merged) event:
+include ▸ read mask ▸ `c.equivalence.Compare(change.OldValue, change.NewValue)` (on the masked values;
+`none` = no equivalence configured).  `none` = `continue`. -/
+def pullStep (p : Option (Pred ι μ)) (proj : μ → μ) (E : Option (Option μ → Option μ → Bool))
+    (c : Change ι μ) : Option (Change ι μ) :=
+  match pullEvent p proj c with
+  | none => none
+  | some d =>
+    match E with
+    | some e => if e d.old d.new then none else some d
+    | none => some d
+
 /-- The read-masked view: every value projected. -/
 def projView (proj : μ → μ) (s : View ι μ) : View ι μ := fun i => (s i).map proj
 
